@@ -288,6 +288,7 @@ func (p *Program) VerifyFunction(u *Universe, fn *ssa.Function) *VC {
 	}
 	e.heap0 = h0
 	p.assumeGlobalFacts(e, fn, h0)
+	vc.afterHavocAll = func(h *Heap) { p.assumeGlobalFacts(e, fn, h) }
 	// module convention (an obligation at every static call site, see staticCall): methods with a
 	// pointer receiver are not called on nil
 	if implicitRecvNonNil(fn) && len(args) > 0 {
